@@ -122,6 +122,73 @@ func contradictoryR(gs []Guard) bool {
 	return false
 }
 
+// spilledParam: the alloc is a local that only ever holds one parameter
+// (single store of a *ssa.Parameter in the entry block, no other store in the
+// function). Closures that capture it may read it; they are not inspected, so
+// this is applied only when no nested function stores through the variable.
+func spilledParam(al *ssa.Alloc) *ssa.Parameter {
+	if al.Referrers() == nil {
+		return nil
+	}
+	var p *ssa.Parameter
+	n := 0
+	for _, r := range *al.Referrers() {
+		if st, ok := r.(*ssa.Store); ok && st.Addr == ssa.Value(al) {
+			n++
+			if pp, ok := st.Val.(*ssa.Parameter); ok && st.Block() == al.Parent().Blocks[0] {
+				p = pp
+			}
+		}
+	}
+	if n != 1 || p == nil {
+		return nil
+	}
+	// nested closures must not assign the variable
+	for _, anon := range al.Parent().AnonFuncs {
+		for _, fv := range anon.FreeVars {
+			if fv.Referrers() == nil {
+				continue
+			}
+			for _, r := range *fv.Referrers() {
+				if st, ok := r.(*ssa.Store); ok && st.Addr == ssa.Value(fv) && fv.Name() == p.Name() {
+					return nil
+				}
+			}
+		}
+	}
+	return p
+}
+
+// directlyRootedAt: the address is a chain of field/index addresses and
+// pointer loads starting at root, without any call in between.
+func directlyRootedAt(addr ssa.Value, root ssa.Value) bool {
+	for i := 0; i < 16; i++ {
+		if addr == root {
+			return true
+		}
+		switch x := addr.(type) {
+		case *ssa.FieldAddr:
+			addr = x.X
+		case *ssa.IndexAddr:
+			addr = x.X
+		case *ssa.UnOp:
+			if x.Op != token.MUL {
+				return false
+			}
+			if al, ok := x.X.(*ssa.Alloc); ok {
+				if p := spilledParam(al); p != nil {
+					addr = p
+					continue
+				}
+			}
+			addr = x.X
+		default:
+			return false
+		}
+	}
+	return false
+}
+
 func isZeroConst(v ssa.Value) bool {
 	k, ok := constInt(v)
 	return ok && k == 0
